@@ -7,11 +7,11 @@ Edits coq/Attr/Distances.v (FIX_* := true) and coq/Props/Properties_C13.v
 theorems become the full statements)."""
 import re, sys, os
 V = os.path.dirname(os.path.dirname(os.path.dirname(os.path.dirname(os.path.abspath(__file__)))))
-which = {"null-first", "merge-ports", "by-name", "xml-kind-zero"}
+which = {"null-first", "merge-ports", "by-name", "xml-kind-zero", "groups-firstfound"}
 if len(sys.argv) > 2 and sys.argv[1] == "--only":
     which = set(sys.argv[2].split(","))
-flag = {"null-first": "FIX_NULL_FIRST", "merge-ports": "FIX_MERGE_PORTS", "by-name": "FIX_BY_NAME_KIND", "xml-kind-zero": "FIX_XML_KIND_ZERO"}
-stem = {"null-first": "dist_reject_identity", "merge-ports": "transform_merge_ports_keeps_nonports", "by-name": "dist_get_by_name", "xml-kind-zero": "xml_roundtrip_kind_zero"}
+flag = {"null-first": "FIX_NULL_FIRST", "merge-ports": "FIX_MERGE_PORTS", "by-name": "FIX_BY_NAME_KIND", "xml-kind-zero": "FIX_XML_KIND_ZERO", "groups-firstfound": "FIX_GROUPS_FIRSTFOUND"}
+stem = {"null-first": "dist_reject_identity", "merge-ports": "transform_merge_ports_keeps_nonports", "by-name": "dist_get_by_name", "xml-kind-zero": "xml_roundtrip_kind_zero", "groups-firstfound": "find_groups_closed"}
 m = os.path.join(V, "coq/Attr/Distances.v")
 s = open(m).read()
 for w in which:
